@@ -29,6 +29,10 @@ pub struct PipeCfg {
     pub pending_permille: u32,
     /// Return `ErrorKind::Interrupted` from write now and then (only for code documenting EINTR handling).
     pub eintr_permille: u32,
+    /// Buffered-writer semantics: written bytes are staged at this end and reach the peer only when `poll_flush` (or
+    /// `poll_close`) runs, like a `BufWriter`, a TLS/noise stream or a muxer substream. Bytes never flushed are lost when
+    /// the end is dropped. Off by default; scenarios opt in per run.
+    pub staged: bool,
 }
 
 impl Default for PipeCfg {
@@ -39,6 +43,7 @@ impl Default for PipeCfg {
             write_chunking: Chunking::Full,
             pending_permille: 0,
             eintr_permille: 0,
+            staged: false,
         }
     }
 }
@@ -53,6 +58,11 @@ impl PipeCfg {
             c.capacity = min + choose(3) * min;
         }
         c
+    }
+
+    pub fn with_staged(mut self, on: bool) -> Self {
+        self.staged = on;
+        self
     }
 
     pub fn draw() -> Self {
@@ -72,6 +82,7 @@ impl PipeCfg {
             write_chunking: ch(choose(4)),
             pending_permille: [0, 0, 30, 150][choose(4)],
             eintr_permille: 0,
+            staged: false,
         }
     }
 }
@@ -116,6 +127,8 @@ pub struct End {
     rx: DirRef,
     tx: DirRef,
     cfg: PipeCfg,
+    /// bytes written but not yet flushed (staged mode)
+    stage: Vec<u8>,
 }
 
 /// Create a connected pair.
@@ -127,8 +140,8 @@ pub fn pair_cfg(a: PipeCfg, b: PipeCfg) -> (End, End) {
     let ab: DirRef = Default::default();
     let ba: DirRef = Default::default();
     (
-        End { name: "A", rx: ba.clone(), tx: ab.clone(), cfg: a },
-        End { name: "B", rx: ab, tx: ba, cfg: b },
+        End { name: "A", rx: ba.clone(), tx: ab.clone(), cfg: a, stage: Vec::new() },
+        End { name: "B", rx: ab, tx: ba, cfg: b, stage: Vec::new() },
     )
 }
 
@@ -215,6 +228,28 @@ impl AsyncWrite for End {
         if d.closed {
             return Poll::Ready(Err(io::ErrorKind::WriteZero.into()));
         }
+        if this.cfg.staged {
+            // staging area of the same size as the pipe; full => the writer has to flush first
+            let room = this.cfg.capacity.max(1).saturating_sub(this.stage.len());
+            if room == 0 {
+                drop(d);
+                return match this.push_stage(cx) {
+                    Poll::Ready(Ok(())) | Poll::Pending => {
+                        cx.waker().wake_by_ref();
+                        Poll::Pending
+                    }
+                    Poll::Ready(Err(e)) => Poll::Ready(Err(e)),
+                };
+            }
+            let max = room.min(buf.len());
+            let n = chunk(this.cfg.write_chunking, max);
+            if n < buf.len() {
+                probe("pipe_short_write");
+            }
+            this.stage.extend_from_slice(&buf[..n]);
+            probe("pipe_staged_write");
+            return Poll::Ready(Ok(n));
+        }
         let room = this.cfg.capacity.saturating_sub(d.buf.len());
         if room == 0 {
             probe("pipe_backpressure");
@@ -241,6 +276,9 @@ impl AsyncWrite for End {
             cx.waker().wake_by_ref();
             return Poll::Pending;
         }
+        if this.cfg.staged {
+            return this.push_stage(cx);
+        }
         let d = this.tx.lock().unwrap();
         if d.reset {
             return Poll::Ready(Err(io::ErrorKind::ConnectionReset.into()));
@@ -254,10 +292,50 @@ impl AsyncWrite for End {
             cx.waker().wake_by_ref();
             return Poll::Pending;
         }
+        if this.cfg.staged && !this.stage.is_empty() {
+            match this.push_stage(cx) {
+                Poll::Ready(Ok(())) => {}
+                other => return other,
+            }
+        }
         let mut d = this.tx.lock().unwrap();
         d.closed = true;
         d.wake_reader();
         Poll::Ready(Ok(()))
+    }
+}
+
+impl End {
+    /// Move staged bytes into the pipe as far as there is room (staged mode).
+    fn push_stage(&mut self, cx: &mut Context<'_>) -> Poll<io::Result<()>> {
+        let mut d = self.tx.lock().unwrap();
+        if d.reset {
+            return Poll::Ready(Err(io::ErrorKind::ConnectionReset.into()));
+        }
+        if self.stage.is_empty() {
+            return Poll::Ready(Ok(()));
+        }
+        if d.reader_gone {
+            return Poll::Ready(Err(io::ErrorKind::BrokenPipe.into()));
+        }
+        let room = self.cfg.capacity.saturating_sub(d.buf.len());
+        let n = room.min(self.stage.len());
+        if n > 0 {
+            let moved: Vec<u8> = self.stage.drain(..n).collect();
+            d.buf.extend(&moved);
+            if let Some(t) = d.tap.as_mut() {
+                t.extend_from_slice(&moved);
+            }
+            d.written += n as u64;
+            d.wake_reader();
+        }
+        if self.stage.is_empty() {
+            Poll::Ready(Ok(()))
+        } else {
+            probe("pipe_backpressure");
+            d.write_waker = Some(cx.waker().clone());
+            Poll::Pending
+        }
     }
 }
 
